@@ -239,6 +239,49 @@ func TestGoldenRequests(t *testing.T) {
 				"isolation_level": int8(1), "topics": []Msg{{"topic": "t", "partitions": []Msg{{"partition": int32(2),
 					"fetch_offset": int64(100), "partition_max_bytes": int32(0x10000)}}}}},
 		},
+		{
+			name: "ListGroups v4 (flexible, states filter)",
+			hex: `00000015
+			      0010 0004 00000001
+			      0001 63 00
+			      02 07 537461626c65  // states_filter ["Stable"]
+			      00`,
+			h:    RequestHeader{APIKey: 16, APIVersion: 4, CorrelationID: 1, ClientID: sp("c"), Flexible: true},
+			body: Msg{"states_filter": []any{"Stable"}},
+		},
+		{
+			name: "DeleteTopics v4 (flexible)",
+			hex: `00000015
+			      0014 0004 00000002
+			      0001 63 00
+			      02 03 7431          // topic_names ["t1"]
+			      00007530            // timeout
+			      00`,
+			h:    RequestHeader{APIKey: 20, APIVersion: 4, CorrelationID: 2, ClientID: sp("c"), Flexible: true},
+			body: Msg{"topic_names": []any{"t1"}, "timeout_ms": int32(30000)},
+		},
+		{
+			name: "SaslAuthenticate v2 (flexible)",
+			hex: `00000011
+			      0024 0002 00000003
+			      0001 63 00
+			      04 010203           // auth_bytes
+			      00`,
+			h:    RequestHeader{APIKey: 36, APIVersion: 2, CorrelationID: 3, ClientID: sp("c"), Flexible: true},
+			body: Msg{"auth_bytes": []byte{1, 2, 3}},
+		},
+		{
+			name: "CreatePartitions v2 (flexible, null assignments)",
+			hex: `0000001b
+			      0025 0002 00000004
+			      0001 63 00
+			      02                  // 1 topic
+			      02 74 00000003 00 00 // "t", count 3, assignments null, tags
+			      00000064 01         // timeout 100, validate_only
+			      00`,
+			h:    RequestHeader{APIKey: 37, APIVersion: 2, CorrelationID: 4, ClientID: sp("c"), Flexible: true},
+			body: Msg{"topics": []Msg{{"name": "t", "count": int32(3), "assignments": nil}}, "timeout_ms": int32(100), "validate_only": true},
+		},
 	}
 	for _, c := range cases {
 		want := unhex(t, c.hex)
@@ -393,6 +436,40 @@ func TestGoldenResponses(t *testing.T) {
 			hex: `00000011 00000001
 			      0000 00000001 0005 504c41494e`,
 			body: Msg{"error_code": int16(0), "mechanisms": []any{"PLAIN"}},
+		},
+		{
+			name: "ListGroups v4 (flexible)", key: 16, ver: 4, corr: 1,
+			hex: `00000020 00000001 00
+			      00000000 0000
+			      02
+			      02 67 09 636f6e73756d6572 07 537461626c65 00
+			      00`,
+			body: Msg{"throttle_time_ms": int32(0), "error_code": int16(0),
+				"groups": []Msg{{"group_id": "g", "protocol_type": "consumer", "group_state": "Stable"}}},
+		},
+		{
+			name: "DeleteTopics v4 (flexible)", key: 20, ver: 4, corr: 2,
+			hex: `00000011 00000002 00
+			      00000000
+			      02 03 7431 0003 00
+			      00`,
+			body: Msg{"throttle_time_ms": int32(0), "responses": []Msg{{"name": "t1", "error_code": int16(3)}}},
+		},
+		{
+			name: "SaslAuthenticate v2 (flexible)", key: 36, ver: 2, corr: 3,
+			hex: `00000012 00000003 00
+			      0000 00 01
+			      0000000000000e10    // session lifetime 3600
+			      00`,
+			body: Msg{"error_code": int16(0), "error_message": nil, "auth_bytes": []byte{}, "session_lifetime_ms": int64(3600)},
+		},
+		{
+			name: "CreatePartitions v2 (flexible)", key: 37, ver: 2, corr: 4,
+			hex: `00000011 00000004 00
+			      00000000
+			      02 02 74 0000 00 00
+			      00`,
+			body: Msg{"throttle_time_ms": int32(0), "results": []Msg{{"name": "t", "error_code": int16(0), "error_message": nil}}},
 		},
 	}
 	for _, c := range cases {
